@@ -297,7 +297,7 @@ impl ForkServer {
         msg.push_str(&format!("EINTR {}\nNOINSECURE {}\nCHUNK {}\n", plan.eintr, u8::from(plan.no_insecure), plan.chunk));
         msg.push_str(&format!("SKEW_HEAP {}\nSKEW_MMAP {}\n", plan.skew_heap, plan.skew_mmap));
         msg.push_str(&format!("CLOCK {} {}\nPID {}\nRSS {}\n", plan.clock_base, plan.clock_step_ns, plan.pid, plan.rss_kib));
-        msg.push_str(&format!("WAIT {}\nREAD {} {}\n", plan.wait_ppm, plan.read_chunk, plan.read_eintr));
+        msg.push_str(&format!("WAIT {}\nREAD {} {}\nCRASH {}\n", plan.wait_ppm, plan.read_chunk, plan.read_eintr, plan.crash_at));
         if !plan.stall.is_empty() {
             msg.push_str(&format!("STALL {}\n", plan.stall.iter().map(ToString::to_string).collect::<Vec<_>>().join(",")));
         }
@@ -456,6 +456,9 @@ pub fn launch_program(
     cmd.env("GRAMSIM_PID", plan.pid.to_string());
     cmd.env("GRAMSIM_RSS", plan.rss_kib.to_string());
     cmd.env("GRAMSIM_WAIT_PPM", plan.wait_ppm.to_string());
+    if plan.crash_at > 0 {
+        cmd.env("GRAMSIM_CRASH_AT", plan.crash_at.to_string());
+    }
     if plan.read_chunk > 0 {
         cmd.env("GRAMSIM_READ_CHUNK", plan.read_chunk.to_string());
         cmd.env("GRAMSIM_READ_EINTR", plan.read_eintr.to_string());
@@ -517,6 +520,68 @@ pub fn launch_program(
     let _ = fs::remove_file(&err_path);
     let _ = fs::remove_file(&log_path);
     Ok((ExecObs { ending, stdout, stderr }, log))
+}
+
+/// A companion launch for the overlap fault: the same program and arguments under the reference
+/// settings, started in the background; it stalls for `pause_ms` at its `pause_at`-th
+/// durable-state operation and creates `<tag>.paused` in the scratch directory when it does.
+/// Returns once the companion has stalled or ended (or after two seconds).
+#[allow(clippy::too_many_arguments)]
+pub fn spawn_companion(
+    env: &ExecEnv,
+    args: &[String],
+    cwd: &Path,
+    scratch: &Path,
+    colour: Colour,
+    plan: &Plan,
+    tag: &str,
+    pause_at: u32,
+    pause_ms: u32,
+) -> Option<(std::process::Child, bool)> {
+    let marker = scratch.join(format!("{tag}.paused"));
+    let log_path = scratch.join(format!("{tag}.log"));
+    let _ = fs::remove_file(&marker);
+    let _ = fs::remove_file(&log_path);
+    let mut cmd = Command::new(&env.gram);
+    cmd.args(args).current_dir(cwd).env_clear().stdin(Stdio::null()).stdout(Stdio::null()).stderr(Stdio::null());
+    for (k, v) in colour.env() {
+        cmd.env(k, v);
+    }
+    cmd.env("TMPDIR", scratch.join("tmp"));
+    cmd.env("HOME", scratch.join("home"));
+    cmd.env("LD_PRELOAD", &env.shim);
+    cmd.env("GRAMSIM_KEY", plan.key_hex());
+    cmd.env("GRAMSIM_LOG", &log_path);
+    cmd.env("GRAMSIM_CLOCK", plan.clock_base.to_string());
+    cmd.env("GRAMSIM_CLOCK_STEP", plan.clock_step_ns.to_string());
+    cmd.env("GRAMSIM_PID", (plan.pid + 7).to_string());
+    cmd.env("GRAMSIM_RSS", plan.rss_kib.to_string());
+    cmd.env("GRAMSIM_PAUSE_AT", pause_at.to_string());
+    cmd.env("GRAMSIM_PAUSE_MS", pause_ms.to_string());
+    cmd.env("GRAMSIM_PAUSE_MARKER", &marker);
+    // SAFETY: only async-signal-safe calls between fork and exec.
+    unsafe {
+        cmd.pre_exec(|| {
+            personality(ADDR_NO_RANDOMIZE);
+            prctl(PR_SET_PDEATHSIG, SIGKILL, 0, 0, 0);
+            Ok(())
+        });
+    }
+    let mut child = cmd.spawn().ok()?;
+    let started = Instant::now();
+    let mut stalled = false;
+    loop {
+        if marker.exists() {
+            stalled = true;
+            break;
+        }
+        if !matches!(child.try_wait(), Ok(None)) || started.elapsed() > Duration::from_secs(2) {
+            break;
+        }
+        std::thread::sleep(Duration::from_micros(500));
+    }
+    let _ = fs::remove_file(&marker);
+    Some((child, stalled))
 }
 
 /// Launch gram on a file of the group.
